@@ -156,6 +156,7 @@ static struct timespec g_start;	/* coarse realtime at initialisation */
 static int g_tmpnames;
 static unsigned int g_tmpcounter;
 static int g_sortdir;
+static int g_dtype_unknown;	/* VSHIM_DTYPE=unknown */
 
 static char **g_dev;		/* VSHIM_DEVMAP prefixes */
 static size_t g_ndev;
@@ -833,6 +834,13 @@ vshim_init(void)
 	g_sortdir = 1;
 	if ((p = env_get("VSHIM_SORTDIR")) != NULL && strcmp(p, "0") == 0)
 		g_sortdir = 0;
+	/*
+	 * VSHIM_DTYPE=unknown: the served snapshots report DT_UNKNOWN for every
+	 * entry (what XFS and others do), so that callers have to stat(2).
+	 * Without it every entry keeps the d_type the kernel reported.
+	 */
+	if ((p = env_get("VSHIM_DTYPE")) != NULL && strcmp(p, "unknown") == 0)
+		g_dtype_unknown = 1;
 	if ((p = env_get("VSHIM_DEVMAP")) != NULL)
 		parse_devmap(p);
 	if ((p = env_get("VSHIM_FSIZE")) != NULL && *p != '\0') {
@@ -2262,6 +2270,9 @@ snap_take(struct dsnap *s)
 			len = sizeof(struct dirent);
 		memset(&s->ents[s->n], 0, sizeof(struct dirent));
 		memcpy(&s->ents[s->n], de, len);
+		/* the real d_type of the entry is kept unless told otherwise */
+		if (g_dtype_unknown)
+			s->ents[s->n].d_type = DT_UNKNOWN;
 		s->n++;
 	}
 	if (s->n > 1)
